@@ -128,3 +128,18 @@ Proof.
   intros H1 H2 H3 H4 H5. rewrite src_hashKey by assumption. cbn [bind].
   apply src_search; assumption.
 Qed.
+
+(* ------------------------------------------------------------------ the order of the ring
+   updateSortedHash sorts with sort.Sort(collections.Uint32Slice(hashes)): the translated
+   Len / Less of that type are the length and the strict order < on the elements — the
+   ascending order the model's sort_u32 produces. *)
+From FV Require Import Generated.U32Slice.
+
+Lemma src_u32slice (x : list Z) i j :
+  0 <= i < Z.of_nat (length x) -> 0 <= j < Z.of_nat (length x) ->
+  go_Uint32Slice_Len x = Z.of_nat (length x) /\
+  go_Uint32Slice_Less x i j = Ok (nth (Z.to_nat i) x 0 <? nth (Z.to_nat j) x 0).
+Proof.
+  intros Hi Hj. split; [reflexivity|].
+  unfold go_Uint32Slice_Less. rewrite !go_index_ok by (unfold go_len; lia). reflexivity.
+Qed.
